@@ -1477,6 +1477,19 @@ Op:
 				if !l.scanParamExp() {
 					return false
 				}
+			case '`':
+				// command substitution
+				if l.cmdSubst == '`' {
+					// the enclosing command substitution ends here
+					l.unread()
+					err = nil
+					goto Error
+				}
+				l.lit()
+				l.mark(-1)
+				if !l.scanCmdSubst('`') {
+					return false
+				}
 			case '}':
 				// right brace
 				l.unread()
